@@ -343,3 +343,50 @@ Proof.
   - intro t. now apply sequence_bracketed.
   - repeat split; assumption.
 Qed.
+
+(* ------------------------------------------------------------------------------------------ *)
+(* A started Run that fails, by the class of its error; abnormal termination.                   *)
+Lemma failed_outcome_feasible : forall k f a, feasible k (failed_outcome k f a) = true.
+Proof. intros k f a. destruct k, f, a; reflexivity. Qed.
+
+Lemma failed_safe : forall k f a,
+  session_ok k (session_events New k (failed_outcome k f a)) = true.
+Proof. intros k f a. apply session_ok_model. apply failed_outcome_feasible. Qed.
+
+(* a process that is not Retryable is run once, whatever the class of the error *)
+Lemma failed_run_once : forall k f a, is_signing k = false ->
+  failed_outcome k f a = RanFailed /\
+  count (fun e => match e with RunBegin => true | _ => false end)
+        (session_events New k (failed_outcome k f a)) = 1.
+Proof. intros k f a H. destruct k; try discriminate H; destruct f, a; split; reflexivity. Qed.
+
+(* ... and if the ECDSA keygen WERE run again after a started Run failed (Retryable() = true, or a
+   coordinator that retries it all the same), its second Run would ask for the lock it holds *)
+Lemma retried_keygen_blocks :
+  mrun false (retried_anyway_events EcdsaKeygen) = MBlocked /\
+  session_ok EcdsaKeygen (retried_anyway_events EcdsaKeygen) = false.
+Proof. split; reflexivity. Qed.
+
+Lemma panic_outcomes_safe : forall k o,
+  (o = PanicBeforeStart \/ o = PanicInRunLate \/ o = PanicAfterRun) ->
+  feasible k o = true /\ session_ok k (session_events New k o) = true /\
+  mrun false (session_events New k o) = MOk false.
+Proof.
+  intros k o H.
+  assert (Hf : feasible k o = true) by (destruct H as [->|[->| ->]]; destruct k; reflexivity).
+  repeat split; [exact Hf | now apply session_ok_model | now apply session_safe].
+Qed.
+
+Lemma panic_ledgers : forall k,
+  session_events New k PanicBeforeStart = ctor_events k ++ stop_events New k false /\
+  session_events New k PanicInRunLate = session_events New k RanFailed /\
+  session_events New k PanicAfterRun = session_events New k RanFailed.
+Proof. intro k. destruct k; repeat split; reflexivity. Qed.
+
+(* a cleanup that is skipped when the process panics (Execute recovers the panic and returns before
+   Stop is called): the lock the process took is still held, the judge rejects the ledger *)
+Definition no_stop_events (k : kind) : list ev := ctor_events k ++ run_events k RanFailed.
+
+Lemma skipped_cleanup_leaks : forall k, exclusive k = true ->
+  mrun false (no_stop_events k) = MOk true /\ session_ok k (no_stop_events k) = false.
+Proof. intros k H. destruct k; try discriminate H; split; reflexivity. Qed.
